@@ -96,6 +96,55 @@ def leaves(tree):
     return out
 
 
+def groups_of(tree):
+    """every parenthesized group of the annotation as (direct tag indices, all descendant tag indices, n children);
+    tag indices number the leaves left to right"""
+    out = []
+    counter = [0]
+
+    def go(children, is_group):
+        direct, below = [], []
+        for c in children:
+            if isinstance(c, str):
+                direct.append(counter[0])
+                below.append(counter[0])
+                counter[0] += 1
+            else:
+                below.extend(go(c, True))
+        if is_group:
+            out.append((direct, below, len(children)))
+        return below
+    go(tree, False)
+    return out
+
+
+def parse_tree_text(text):
+    """inverse of render (used by replay only)"""
+    pos = [0]
+
+    def go():
+        out, cur = [], ""
+        while pos[0] < len(text):
+            ch = text[pos[0]]
+            pos[0] += 1
+            if ch == "(":
+                out.append(go())
+            elif ch == ")":
+                if cur.strip():
+                    out.append(cur.strip())
+                return tuple(out)
+            elif ch == ",":
+                if cur.strip():
+                    out.append(cur.strip())
+                cur = ""
+            else:
+                cur += ch
+        if cur.strip():
+            out.append(cur.strip())
+        return tuple(out)
+    return go()
+
+
 def reverse_tree(tree):
     return tuple(c if isinstance(c, str) else reverse_tree(c) for c in reversed(tree))
 
@@ -118,7 +167,7 @@ def gen_annotations(rng, quick):
         if t not in seen:
             seen.add(t)
             trees.append(t)
-    per_shape = 6 if quick else 110
+    per_shape = 5 if quick else 110
     for n in range(1, 6):
         for shape in forests(n, 4):
             k = n_leaves(shape)
@@ -227,6 +276,9 @@ class Plan:
         self.triples = []    # (iA, iB, iC, iLeft, iRight)
         self.distinct = []   # (iAnd, (modeA, termA), (modeB, termB))
         self.ctx = []        # (iX, iY, what)  X/Y = same context around A&&B / B&&A
+        self.union = []      # (iQ, [modes of the Or-ed terms], mode of B)  for (A1 || A2) && B  and  B && (A1 || A2)
+        self.group1 = []     # (iQ, form, modeA)            [A]  {A}  {A:}
+        self.group2 = []     # (iQ, form, modeA, modeB)     [A && B]  {A && B}  {A && B:}
         self.wellformed = []  # indices of queries that must compile (clean grammar instances)
         self._term_atoms()
         atoms = LAW_ATOMS
@@ -262,6 +314,18 @@ class Plan:
         if not quick:
             for _ in range(1500):
                 self._triple(*[gen_clean_query(rng, rng.randint(1, 3)) for _ in range(3)])
+        # -- term-level queries whose meaning the property / the QueryHandler docstring spell out
+        term_atoms = [a for a in atoms if a[0] == "t"]
+        for a in term_atoms:
+            for form in ("desc", "ex", "ex0"):
+                self.group1.append((self.add((form, a)), form, atom_mode(a)))
+            for b in term_atoms:
+                for form in ("desc", "ex", "ex0"):
+                    self.group2.append((self.add((form, ("and", a, b))), form, atom_mode(a), atom_mode(b)))
+        for _ in range(150 if quick else 1200):
+            a1, a2, b = (rng.choice(term_atoms) for _ in range(3))
+            self.union.append((self.add(("and", ("or", a1, a2), b)), [atom_mode(a1), atom_mode(a2)], atom_mode(b)))
+            self.union.append((self.add(("and", b, ("or", a1, a2))), [atom_mode(a1), atom_mode(a2)], atom_mode(b)))
         # -- symmetric inside a context (atoms only)
         for a, b in itertools.combinations(atoms, 2):
             for k in ("desc", "ex", "ex0", "par"):
@@ -331,6 +395,25 @@ def term_matches(mode, term, label):
     if mode == "star":
         return label_short(label).startswith(_cf(term))
     raise AssertionError(mode)
+
+
+def group_form_expected(grps, form, sa, sb):
+    """ORACLE from the QueryHandler docstring:
+       [A && B]  a group that contains both (at any level)      -> form 'desc'
+       {A && B}  a group with both at the same level            -> form 'ex'
+       {A && B:} ... at the same level, and nothing else        -> form 'ex0'
+    sa/sb: indices of the tags matching A / B (sb None for the one-term forms); '&&' needs distinct tags"""
+    for direct, below, nchildren in grps:
+        pool = below if form == "desc" else direct
+        ca = [i for i in pool if i in sa]
+        if sb is None:
+            if ca and (form != "ex0" or nchildren == 1):
+                return True
+            continue
+        cb = [i for i in pool if i in sb]
+        if any(i != j for i in ca for j in cb) and (form != "ex0" or nchildren == 2):
+            return True
+    return False
 
 
 # ------------------------------------------------------------------------------------------------ real code access
@@ -440,9 +523,10 @@ def _work(chunk):
         snap0 = snapshot(hs)
         res1 = _search_all(hs, handlers, fails, atext, texts)
         c1 = [None if r is None else canon_result(r) for r in res1]
-        res2 = _search_all(hs, handlers, [], atext, texts)
+        twice = not _G["quick"] or ti % 2 == 0
+        res2 = _search_all(hs, handlers, [], atext, texts) if twice else res1
         snap1 = snapshot(hs)
-        pairs_eval += 2 * nq
+        pairs_eval += (2 if twice else 1) * nq
         b = [None if r is None else bool(r) for r in res1]
         for qi in range(nq):
             if b[qi]:
@@ -469,6 +553,28 @@ def _work(chunk):
             if b[iand] is not None and b[iand] != exp:
                 fails.append(("C15.and.distinct_tags", {"annotation": atext, "query": texts[iand],
                                                         "A": [ma, ta], "B": [mb, tb]}, b[iand], exp))
+        for iq, modes, (mb, tb) in plan.union:
+            sa = {i for i, lab in enumerate(labs) if any(term_matches(m, t, lab) for m, t in modes)}
+            sb = {i for i, lab in enumerate(labs) if term_matches(mb, tb, lab)}
+            exp = any(i != j for i in sa for j in sb)
+            if b[iq] is not None and b[iq] != exp:
+                fails.append(("C15.and.distinct_tags", {"annotation": atext, "query": texts[iq],
+                                                        "A": [list(m) for m in modes], "B": [mb, tb]}, b[iq], exp))
+        # -- documented group forms (QueryHandler docstring) for term-level operands
+        grps = groups_of(tree)
+        for iq, form, (ma, ta) in plan.group1:
+            sa = {i for i, lab in enumerate(labs) if term_matches(ma, ta, lab)}
+            exp = group_form_expected(grps, form, sa, None)
+            if b[iq] is not None and b[iq] != exp:
+                fails.append(("C15.group." + form, {"annotation": atext, "query": texts[iq], "form": form,
+                                                    "A": [ma, ta]}, b[iq], exp))
+        for iq, form, (ma, ta), (mb, tb) in plan.group2:
+            sa = {i for i, lab in enumerate(labs) if term_matches(ma, ta, lab)}
+            sb = {i for i, lab in enumerate(labs) if term_matches(mb, tb, lab)}
+            exp = group_form_expected(grps, form, sa, sb)
+            if b[iq] is not None and b[iq] != exp:
+                fails.append(("C15.group." + form, {"annotation": atext, "query": texts[iq], "form": form,
+                                                    "A": [ma, ta], "B": [mb, tb]}, b[iq], exp))
         # -- laws
         for ia, ib, iand, irev, ior in plan.pairs:
             if None in (b[ia], b[ib]):
@@ -494,9 +600,14 @@ def _work(chunk):
         # -- sibling reordering
         rng = random.Random((_G["seed"] + 1) * 1000003 + ti)
         variants = []
-        for v in (reverse_tree(tree), shuffle_tree(tree, rng)):
+        cands = [reverse_tree(tree), shuffle_tree(tree, rng)]
+        if _G["quick"]:
+            cands = cands[::-1] if ti % 2 else cands
+        for v in cands:
             if v != tree and v not in variants:
                 variants.append(v)
+        if _G["quick"]:
+            variants = variants[:1]
         for v in variants:
             vtext = render(v)
             hv = parse_annotation(vtext)
@@ -686,7 +797,7 @@ def run(w: Workload):
         else:
             for first in TOKENS:
                 jobs.append(("seq", (TOKENS, length, first)))
-    for length in ((5, 6) if w.quick else (6, 7)):
+    for length in ((5,) if w.quick else (6, 7)):
         for first in TOKENS_SMALL:
             jobs.append(("seq", (TOKENS_SMALL, length, first)))
     ngarb = 12 if w.quick else 60
@@ -718,7 +829,8 @@ def run(w: Workload):
            bound=f"{len(trees)} annotations (<=5 nodes, depth<=4; all 63 ordered shapes) + {n_variants} sibling-reordered "
                  f"variants x {nq} queries (grammar depth <= {3 if w.quick else 4}); {len(plan.terms)} term queries, "
                  f"{len(plan.pairs)} (A,B) pairs, {len(plan.triples)} (A,B,C) triples, {len(plan.distinct)} term pairs "
-                 f"with the distinct-tag oracle; each search run twice",
+                 f"with the distinct-tag oracle (+{len(plan.union)} with an Or-ed operand), {len(plan.group1) + len(plan.group2)} "
+                 f"documented group forms; each search run twice{' on every other annotation' if w.quick else ''}",
            exhaustive=False, annotations=len(trees), queries=nq)
 
     # ---- collect parse part
@@ -746,7 +858,7 @@ def run(w: Workload):
     w.distinct.add(("parse-texts", n + nm))
     w.part("query text totality", cases=n + nm,
            bound=f"all token sequences over {len(TOKENS)} tokens up to length {max(lengths)}, over {len(TOKENS_SMALL)} "
-                 f"tokens up to length {7 if not w.quick else 6}; {ngarb} x random character strings (<=10 chars); "
+                 f"tokens up to length {7 if not w.quick else 5}; {ngarb} x random character strings (<=10 chars); "
                  f"{nm} single-bracket mutations of well-formed queries; {unb} unbalanced, {rej} rejected",
            exhaustive=False, sequences_exhaustive=True)
 
@@ -832,9 +944,18 @@ def replay(w: Workload, case: dict):
         exp = any(term_matches(inp["mode"], inp["term"], lab) for lab in tree_labels)
         obs = search_bool(inp["query"], a)
         w.check(obs == exp, clause, inp, obs, exp)
+    elif clause.startswith("C15.group."):
+        tree = parse_tree_text(a)
+        labs = leaves(tree)
+        sa = {i for i, lab in enumerate(labs) if term_matches(inp["A"][0], inp["A"][1], lab)}
+        sb = {i for i, lab in enumerate(labs) if term_matches(inp["B"][0], inp["B"][1], lab)} if "B" in inp else None
+        exp = group_form_expected(groups_of(tree), inp["form"], sa, sb)
+        obs = search_bool(inp["query"], a)
+        w.check(obs == exp, clause, inp, obs, exp)
     elif clause == "C15.and.distinct_tags":
         labs = [x.strip("() ") for x in a.split(",")]
-        sa = {i for i, lab in enumerate(labs) if term_matches(inp["A"][0], inp["A"][1], lab)}
+        amodes = inp["A"] if isinstance(inp["A"][0], list) else [inp["A"]]
+        sa = {i for i, lab in enumerate(labs) if any(term_matches(m, t, lab) for m, t in amodes)}
         sb = {i for i, lab in enumerate(labs) if term_matches(inp["B"][0], inp["B"][1], lab)}
         exp = any(i != j for i in sa for j in sb)
         obs = search_bool(inp["query"], a)
